@@ -1242,7 +1242,15 @@ def site_rewrite(ctx, sf, it, rule, anchor, nth, ropts, what):
     toks, pair = sf.toks, sf.pair
     lo = toks[it.body_open].end if it.body_open is not None else it.start
     hi = toks[it.body_close].start if it.body_close is not None else it.end
-    s, e = find_anchor(sf, lo, hi, anchor, nth, what)
+    try:
+        s, e = find_anchor(sf, lo, hi, anchor, nth, what)
+    except LostAnchor:
+        if ropts.get("optional"):
+            # a rewrite that only exists to get an unsupported *expression form* past Verus (e.g. `(a..=b).contains(&x)`):
+            # if the code no longer uses that form there is nothing to rewrite and Verus sees the new expression itself
+            ctx.fire("O1-skipped", sf, lo, f"optional rewrite, anchor {anchor!r} absent")
+            return []
+        raise
     a, b = tok_range(sf, s, e)
     edits = []
     if rule == "N8":
